@@ -20,6 +20,9 @@ def verus_part(ctx, tier, vd):
         u, _ = A.build(ctx, check_arms=set(g), helpers=helpers, plan=plan)
         obligations = u.obligations
         jobs.append(D.Job("ast_g%02d" % gi, u, extra=["--verify-root", "--verify-function", "walk_node_for_targets"]))
+    # termination of the recursion: a variant of its own (same text, `decreases all_nodes(node).len()`, size invariants only)
+    term, _ = A.build(ctx, check_arms=None, helpers=helpers, plan=plan, mode="term")
+    term_job = D.Job("ast_term", term, extra=["--verify-root", "--verify-function", "walk_node_for_targets"])
     rest, _ = A.build(ctx, walker_external=True)
     jobs.append(D.Job("ast_rest", rest))
     fid = jobs[0].unit.fidelity_report()
@@ -27,7 +30,7 @@ def verus_part(ctx, tier, vd):
     if not fid["ok"] or not fid_rest["ok"]:
         bad = [i for i in fid["items"] + fid_rest["items"] if not i["ok"]]
         raise C.Unsupported("fidelity check failed: %r" % bad[:2])
-    D.run_jobs(jobs)
+    D.run_jobs(jobs + [term_job])
     # isolate resource-limit answers: re-run the arms of such a group one by one with a larger limit
     retry = []
     for j, g in zip(jobs, groups):
@@ -38,8 +41,10 @@ def verus_part(ctx, tier, vd):
             j.failures = [f for f in j.failures if f["class"] == "definite"]
     if retry:
         D.run_jobs(retry)
-    all_jobs = jobs + retry
+    all_jobs = jobs + retry + [term_job]
     all_obs = {"ast/" + o[0]: o[1] for o in (obligations or [])}
+    for o in term.obligations:
+        all_obs["ast/" + o[0]] = o[1]
     for o in rest.obligations:
         all_obs["ast/" + o[0]] = o[1]
     failed = {}
